@@ -99,8 +99,18 @@ let committer_case id prog =
       (if pubat.(d) < 0 then "-" else show_val c.dpubval) (if pubat.(d) < 0 then "-" else show_val c.dval) in
   Printf.printf "%s %s %s pmove=%b\n" id (show 0) (show 1) (pmove !s)
 
+(* B-lines: <id> B <n>: every interleaving of run() binding n targets against n releasers of those targets *)
+let bind_case id n =
+  let n = int_of_string n in
+  let tids = List.init (n + 1) nat_of_int in
+  let (terms, nstates, ntrans, trunc) = explore bstep tids (fun _ -> true) (binit (nat_of_int n)) 2000000 in
+  let early = List.exists (fun s -> bearly s) terms in
+  let unfinished = List.exists (fun s -> bfin s = None || not (bfired s)) terms in
+  Printf.printf "%s states=%d trans=%d trunc=%b early=%b unfinished=%b\n" id nstates ntrans trunc early unfinished
+
 let () = iter_lines (fun line ->
   match words line with
+  | [id; "B"; n] -> bind_case id n
   | [id; _; _; "K"; _; _; _; _; prog] -> committer_case id prog
   | [id; "D"; hc; ho] -> dep_case id hc ho
   | [id; _; _; _; _; gs; ps; is; ts] -> graph_case id gs ps is ts
